@@ -28,6 +28,8 @@ INSTANCES = {
     "leaf-unary-4": (["Leaf", "Unary"], {("Leaf", "a"): {0, 1}}, 4, 1, {0}),
     "dup-4": (["Leaf", "Many"], {}, 4, 1, {0}, {"new", "dup", "detach_self", "drop", "replace"}, 6),
     "observe-org-2": (["Leaf", "Unary"], {}, 2, 1, {0, 1}, {"new", "observe", "detach_self", "drop"}, 4),
+    "picky-3": (["Picky", "Unary"], {("Picky", "note"): {0, 1}}, 3, 1, {0},
+                {"new", "new_fails", "replace", "replace_fails", "dcreplace", "detach_self", "drop", "dup"}, 7),
     "observe-3": (["Leaf", "Unary", "Many"], {}, 3, 1, {0}, {"new", "observe", "detach_self", "detach", "drop", "replace", "dup"}, 5),
     "observe-4": (["Leaf", "SubLeaf", "Unary", "Many"], {}, 4, 2, {0}, {"new", "observe", "detach_self", "drop", "replace"}, 5),
     "ser-3": (["Leaf", "Unary"], {}, 3, 1, {0}, SEROPS),
@@ -111,11 +113,11 @@ FORMATS = ["dict", "json", "msgpack", "yaml"]
 # which clauses belong to which property
 CLAUSES = {
     "C03": {"registered", "lookup", "get-by-class", "id-partition", "id-deterministic", "not-collected", "liveness",
-            "detach_self-result", "replace-should-raise"},
+            "detach_self-result", "replace-should-raise", "new-should-raise"},
     "C14": {"dup-structure", "replace-unchanged-field", "dcreplace-unchanged-field", "replace-changed-field",
             "dcreplace-changed-field", "replace-class", "dcreplace-class", "class", "prop-value", "child-identity",
             "origin", "registered", "id-partition", "id-deterministic"},
-    "C10": {"frame-C10", "assign-should-raise", "registered", "lookup", "id-partition", "not-collected", "liveness",
+    "C10": {"frame-C10", "assign-should-raise", "new-should-raise", "replace-should-raise", "registered", "lookup", "id-partition", "not-collected", "liveness",
             "class", "prop-value", "child-identity", "origin"},
     "C04": {"deser-raised", "deser-structure", "deser-identity", "class", "prop-value", "child-identity", "origin", "registered",
             "lookup", "id-partition", "liveness", "not-collected"},
